@@ -185,7 +185,12 @@ func Parse(ctx context.Context, args []string, stdin io.Reader, stdout, stderr i
 					continue
 				}
 				srcPath, err := filepath.Abs(filepath.Join(u.Host, u.Path))
-				if err == nil && (srcPath == path || strings.HasPrefix(srcPath, strings.TrimSuffix(path, "/")+"/")) {
+				if err != nil {
+					continue
+				}
+				// (Compare where the two really are: either may be named through symlinks.)
+				srcPath, realTarget := resolveExisting(srcPath), resolveExisting(path)
+				if srcPath == realTarget || strings.HasPrefix(srcPath, strings.TrimSuffix(realTarget, "/")+"/") {
 					return Errorf(rio.ErrUsage, "source warehouse %q lies inside the unpack target %q, which is emptied first", src, path)
 				}
 			}
@@ -420,6 +425,22 @@ func (oc *outputController) WireMonitor(ctx context.Context, m rio.Monitor) rio.
 		panic(fmt.Errorf("rio: invalid format %s", oc.format))
 	}
 	return m
+}
+
+// resolveExisting resolves the symlinks of the longest prefix of an absolute path that exists,
+// and appends the rest (which does not exist yet) as it is.
+func resolveExisting(p string) string {
+	rest := ""
+	for {
+		if real, err := filepath.EvalSymlinks(p); err == nil {
+			return filepath.Join(real, rest)
+		}
+		if p == "/" || p == "." || p == "" {
+			return filepath.Join(p, rest)
+		}
+		rest = filepath.Join(filepath.Base(p), rest)
+		p = filepath.Dir(p)
+	}
 }
 
 func convertWarehouseSlice(slice []string) []api.WarehouseLocation {
